@@ -83,13 +83,13 @@ elab "split_hyp_ands" : tactic => liftMetaTactic fun g => do return [← g.cases
 namespace Twig
 
 /-- bind inversion for the result monad -/
-theorem bind_ok {α β} {x : R α} {f : α → R β} {b : β}
+theorem rt_bind_ok {α β} {x : R α} {f : α → R β} {b : β}
     (h : (x >>= f) = .ok b) : ∃ a, x = .ok a ∧ f a = .ok b := by
   cases x with
   | error e => simp [bind, Except.bind] at h
   | ok a => exact ⟨a, rfl, h⟩
 
-theorem bind_error {α β} {x : R α} {f : α → R β} {e : Err}
+theorem rt_bind_error {α β} {x : R α} {f : α → R β} {e : Err}
     (h : x = .error e) : (x >>= f) = .error e := by subst h; rfl
 
 theorem bind_of_ok {α β} {x : R α} {f : α → R β} {a : α}
@@ -121,7 +121,7 @@ structure Pre (P : St → St → Prop) : Prop where
 theorem holds_bind {α β} {P : St → St → Prop} (hP : Pre P) {st : St} {m : R (α × St)} {k : α × St → R (β × St)}
     (hm : Holds (P st) m) (hk : ∀ a st1, P st st1 → Holds (P st1) (k (a, st1))) : Holds (P st) (m >>= k) := by
   intro b st' h
-  obtain ⟨⟨a, st1⟩, h1, h2⟩ := bind_ok h
+  obtain ⟨⟨a, st1⟩, h1, h2⟩ := rt_bind_ok h
   exact hP.trans (hm a st1 h1) (hk a st1 (hm a st1 h1) b st' h2)
 
 theorem holds_bind3 {α β γ} {P : St → St → Prop} (hP : Pre P) {st : St} {m : R ((α × γ) × St)}
@@ -133,7 +133,7 @@ theorem holds_bind3 {α β γ} {P : St → St → Prop} (hP : Pre P) {st : St} {
 theorem holds_bindR {α β} {P : St → Prop} {m : R α} {k : α → R (β × St)}
     (hk : ∀ a, m = .ok a → Holds P (k a)) : Holds P (m >>= k) := by
   intro b st' h
-  obtain ⟨a, h1, h2⟩ := bind_ok h
+  obtain ⟨a, h1, h2⟩ := rt_bind_ok h
   exact hk a h1 b st' h2
 
 /-- one step of the walk through a `do` block; `hP : Pre P` -/
@@ -188,11 +188,11 @@ theorem relOk_of_prims (hP : Pre P) (hemit : ∀ k name st, P st (st.emit k name
     split at h
     · cases h
     · split at h
-      · obtain ⟨s1, h1, h2⟩ := bind_ok h
+      · obtain ⟨s1, h1, h2⟩ := rt_bind_ok h
         cases h2
         exact hspy _ _ _ _ h1
       · split at h
-        · obtain ⟨x, _, h2⟩ := bind_ok h
+        · obtain ⟨x, _, h2⟩ := rt_bind_ok h
           cases h2
           exact hemit _ _ _
         · cases h
@@ -204,11 +204,11 @@ theorem relOk_of_prims (hP : Pre P) (hemit : ∀ k name st, P st (st.emit k name
     · split at h
       · cases h; exact hemit _ _ _
       · split at h
-        · obtain ⟨s1, h1, h2⟩ := bind_ok h
+        · obtain ⟨s1, h1, h2⟩ := rt_bind_ok h
           cases h2
           exact hspy _ _ _ _ h1
         · split at h
-          · obtain ⟨x, _, h2⟩ := bind_ok h
+          · obtain ⟨x, _, h2⟩ := rt_bind_ok h
             cases h2
             exact hemit _ _ _
           · split at h
@@ -278,7 +278,7 @@ theorem post_bind {α β} (hT : PreO T) {o : Obs} {m : R (α × St)} {k : α × 
     (hm : Post K T m o) (hk : ∀ a st1, K st1.ctx → T o st1.obs → Post K T (k (a, st1)) st1.obs) :
     Post K T (m >>= k) o := by
   intro b st' h
-  obtain ⟨⟨a, st1⟩, h1, h2⟩ := bind_ok h
+  obtain ⟨⟨a, st1⟩, h1, h2⟩ := rt_bind_ok h
   obtain ⟨k1, t1⟩ := hm a st1 h1
   obtain ⟨k2, t2⟩ := hk a st1 k1 t1 b st' h2
   exact ⟨k2, hT.trans t1 t2⟩
@@ -291,7 +291,7 @@ theorem post_bind3 {α β γ} (hT : PreO T) {o : Obs} {m : R ((α × γ) × St)}
 theorem post_bindR {α β} {o : Obs} {m : R α} {k : α → R (β × St)}
     (hk : ∀ a, m = .ok a → Post K T (k a) o) : Post K T (m >>= k) o := by
   intro b st' h
-  obtain ⟨a, h1, h2⟩ := bind_ok h
+  obtain ⟨a, h1, h2⟩ := rt_bind_ok h
   exact hk a h1 b st' h2
 
 /-- an expression-level result (context unchanged) as a node-level postcondition -/
@@ -499,7 +499,7 @@ theorem agj_bind {α β} {m0 mn : R (α × St)} {k0 kn : α × St → R (β × S
     AgJ X J (m0 >>= k0) (mn >>= kn) := by
   refine ⟨agree_bind hm.1 (fun ⟨a, st1⟩ h => (hk a st1 (hm.2 a st1 h)).1), ?_⟩
   intro b st' h
-  obtain ⟨⟨a, st1⟩, h1, h2⟩ := bind_ok h
+  obtain ⟨⟨a, st1⟩, h1, h2⟩ := rt_bind_ok h
   exact (hk a st1 (hm.2 a st1 h1)).2 b st' h2
 
 theorem agj_bind3 {α β γ} {m0 mn : R ((α × γ) × St)} {k0 kn : (α × γ) × St → R (β × St)}
@@ -531,7 +531,7 @@ theorem agj_bindS {β} {m0 mn : R St} {k0 kn : St → R (β × St)}
     (hm : Agree X m0 mn) (hk : ∀ s, mn = .ok s → AgJ X J (k0 s) (kn s)) : AgJ X J (m0 >>= k0) (mn >>= kn) := by
   refine ⟨agree_bind hm (fun s h => (hk s h).1), ?_⟩
   intro b st' h
-  obtain ⟨s, h1, h2⟩ := bind_ok h
+  obtain ⟨s, h1, h2⟩ := rt_bind_ok h
   exact (hk s h1).2 b st' h2
 
 end agj
